@@ -134,7 +134,7 @@ def run_tlc(module, cfg_text, files=(), workers=None, timeout=900, tags=("CASE",
         with open(os.path.join(d, "run.cfg"), "w") as fh:
             fh.write(cfg_text)
         w = workers or NCPU
-        cmd = ["timeout", str(timeout), "java", "-XX:+UseParallelGC", "-Xss64m"]
+        cmd = ["timeout", str(timeout), "java", "-XX:+UseParallelGC", "-Xss64m", "-Djava.io.tmpdir=" + d]
         if heap:
             cmd.append("-Xmx" + heap)
         cmd += ["-cp", "/opt/veriftools/tla/tla2tools.jar:/opt/veriftools/tla/CommunityModules-deps.jar",
